@@ -6,5 +6,8 @@ git -C /repo apply "$S/patch.diff" || { echo "patch does not apply"; exit 2; }
 trap 'git -C /repo checkout -- . ' EXIT INT TERM
 for id in "$@"; do
   out=$(cd /verif && timeout 1500 ./check $id --tier quick 2>&1); rc=$?
-  echo "== $id rc=$rc"; echo "$out" | grep -E "VIOLATION|KNOWN-FINDING|violation:|OK property|Error|Traceback" | head -8
+  nv=$(echo "$out" | grep -c "^VIOLATION")
+  first=$(echo "$out" | grep -m1 "violation:" | cut -c1-150)
+  echo "== $id rc=$rc violations=$nv $first"
+  echo "$out" | grep -E "Error|Traceback" | head -3
 done
